@@ -137,8 +137,8 @@ theorem fieldLoop_seen (g : Field) : ∀ (b c : List Field) ids ns,
         | inl h => exact Or.inl (List.mem_cons_of_mem _ h)
         | inr h => exact Or.inr (List.mem_cons_of_mem _ h)
 
-theorem fieldLoop_dup (f g : Field) (h : f.id = g.id ∨ f.name = g.name) (a b c : List Field) :
-    fieldLoop [] [] (a ++ f :: (b ++ g :: c)) ≠ none := by
+theorem fieldLoop_dup (f g : Field) (h : f.id = g.id ∨ f.name = g.name) (a b c : List Field) (ids0 : List Int) (ns0 : List Name) :
+    fieldLoop ids0 ns0 (a ++ f :: (b ++ g :: c)) ≠ none := by
   apply fieldLoop_prefix
   intro ids ns
   simp only [fieldLoop]
@@ -150,6 +150,11 @@ theorem fieldLoop_dup (f g : Field) (h : f.id = g.id ∨ f.name = g.name) (a b c
       cases h with
       | inl h => exact Or.inl (h ▸ List.mem_cons_self)
       | inr h => exact Or.inr (h ▸ List.mem_cons_self)
+
+/-- a member whose id or name is among the seeds (field 0 `success` of a result struct) -/
+theorem fieldLoop_seeded (g : Field) (ids0 : List Int) (ns0 : List Name) (h : g.id ∈ ids0 ∨ g.name ∈ ns0) (a c : List Field) :
+    fieldLoop ids0 ns0 (a ++ g :: c) ≠ none :=
+  fieldLoop_seen g a c ids0 ns0 h
 
 /-- one iteration either stops with an error or goes on with the name recorded -/
 theorem funcLoop_step (d : List Name) (f : Func) (r : List Func) :
@@ -199,7 +204,8 @@ theorem funcLoop_oneway (g : Func) (h : g.oneway = true ∧ (g.void = false ∨ 
         simp [ho, this]
 
 /-- checkFunctionFields: a duplicated id or name among the arguments, or among the throws entries -/
-theorem funcLoop_fields (g : Func) (h : fieldLoop [] [] g.args ≠ none ∨ fieldLoop [] [] g.throws ≠ none) (a c : List Func) :
+theorem funcLoop_fields (g : Func)
+    (h : fieldLoop [] [] g.args ≠ none ∨ fieldLoop (throwsSeedIds g) (throwsSeedNames g) g.throws ≠ none) (a c : List Func) :
     funcLoop [] (a ++ g :: c) ≠ none := by
   apply funcLoop_prefix
   intro d
